@@ -292,7 +292,7 @@ fn is_rec(out: &[u8], at: usize, rtype: u8, id: u16, body0: u8, body4: u8) -> bo
         && out[at + 12] == body4 && out[at + 13] == 0 && out[at + 14] == 0 && out[at + 15] == 0
 }
 
-// @harness name=c02_head props=C02,C03,C04,C11,C18 tier=quick timeout=900
+// @harness name=c02_head props=C02,C03,C04,C11,C18 tier=quick timeout=2400
 // @bound record-boundary state (payload_rem = padding_rem = 0), every geometry of the 24-byte buffer, every role / request id / active stream / previous State, every 8-byte header (all 2^64), no pending output
 // @functions stream::Parser::parse_head, cmp_input_streams, RecordHeader::from_bytes, UnknownType::to_record, EndRequest::to_record
 #[kani::proof]
@@ -300,7 +300,7 @@ fn is_rec(out: &[u8], at: usize, rtype: u8, id: u16, body0: u8, body4: u8) -> bo
 #[kani::stub(std::hash::RandomState::new, fixed_random_state)]
 fn c02_head() { head_case(0); }
 
-// @harness name=c02_head_pending_out props=C02,C04 tier=quick timeout=900
+// @harness name=c02_head_pending_out props=C02,C04 tier=quick timeout=2400
 // @bound as c02_head, with 2 bytes of unconsumed output pending (replies must be appended after them)
 // @functions stream::Parser::parse_head
 #[kani::proof]
@@ -420,7 +420,7 @@ fn c18_cmp_table() {
     kani::cover!(role == fcgi::Role::Authorizer, "role without input streams");
 }
 
-// @harness name=c18_set_stream props=C18,C02,C09 tier=quick timeout=900
+// @harness name=c18_set_stream props=C18,C02,C09 tier=quick timeout=2400
 // @bound every geometry of the 24-byte buffer, every role / current selection / State / payload_rem / padding_rem; requested selection: None or any input-stream type; two consecutive calls
 // @functions stream::Parser::set_stream, stream::Parser::active_stream, discard_stream, compress
 #[kani::proof]
@@ -729,7 +729,7 @@ fn trace(id: u16, pl: [u8; 3]) -> [u8; 32] {
      1, 5, h, l, 0, 0, 0, 0]
 }
 
-// @harness name=c02_parse_trace_cut props=C02,C03,C04,C09 tier=quick timeout=1800 rmbody=ioerr,nogrow,nonv mem=20 unwindset=stream::Parser::<'_>::parse$:5
+// @harness name=c02_parse_trace_cut props=C02,C03,C04,C09 tier=quick timeout=2400 rmbody=ioerr,nogrow,nonv mem=20 unwindset=stream::Parser::<'_>::parse$:5
 // @bound 32-byte buffer holding the concrete-shaped trace [Stdin(3 symbolic bytes, padding 5) | unknown type 12 (empty) | Stdin terminator] for a symbolic request id; the bytes arrive in two parse() calls cut at EVERY offset 0..32; dest = None; compared with the everything-at-once outcome
 // @functions stream::Parser::parse (loop glue: payload, padding, header, hold-back), parse_payload, parse_head
 #[kani::proof]
